@@ -9,6 +9,12 @@
 #include <limits.h>
 static ssize_t (*real_write)(int, const void *, size_t);
 static int counter = 0;
+#include <fcntl.h>
+/* tell the runner that the fault really fired (a fault that never fires must not be taken for a swallowed error) */
+static void mark(void) {
+    const char *m = getenv("BITA_FI_MARK");
+    if (m) { int fd = open(m, O_CREAT | O_WRONLY, 0644); if (fd >= 0) close(fd); }
+}
 static int match(int fd) {
     const char *want = getenv("BITA_FI_PATH");
     if (!want) return 0;
@@ -28,6 +34,7 @@ ssize_t write(int fd, const void *buf, size_t len) {
             const char *mode = getenv("BITA_FI_MODE");
             size_t tear = getenv("BITA_FI_TEAR") ? (size_t)atol(getenv("BITA_FI_TEAR")) : 0;
             if (tear > len) tear = len;
+            mark();
             if (tear) real_write(fd, buf, tear);
             if (mode && !strcmp(mode, "kill")) { kill(getpid(), SIGKILL); pause(); }
             errno = EIO; return -1;
@@ -47,6 +54,7 @@ ssize_t pwrite64(int fd, const void *buf, size_t len, off_t off) {
             const char *mode = getenv("BITA_FI_MODE");
             size_t tear = getenv("BITA_FI_TEAR") ? (size_t)atol(getenv("BITA_FI_TEAR")) : 0;
             if (tear > len) tear = len;
+            mark();
             if (tear) real_pwrite64(fd, buf, tear, off);
             if (mode && !strcmp(mode, "kill")) { kill(getpid(), SIGKILL); pause(); }
             errno = EIO; return -1;
